@@ -572,7 +572,14 @@ impl Database {
             };
             match i32::from_str_radix(&current_value, 10) {
                 Ok(current) => {
-                    let next = (current + inc).to_string();
+                    let next = match current.checked_add(inc) {
+                        Some(next) => next.to_string(),
+                        None => {
+                            return Response::Error {
+                                msg: "Increment overflows the key".to_string(),
+                            }
+                        }
+                    };
                     // Keep the record the key already has on disk (and its version history),
                     // the same way set_value does, otherwise the next snapshot appends a second
                     // record and a later remove only tombstones one of them
